@@ -249,6 +249,9 @@ def sortedness_rules(run):
         run.violation('R4', 'tie-order', S + '::add_timer', at.loc(), why)
     else:
         run.unrecognised('R4', 'tie-order', S + '::add_timer', at.loc(), why)
+    run.check(bool(ins) and q.on_all_paths(at, ins), 'R4', 'add-timer-always-queues', S + '::add_timer', at.loc(),
+              'a path through add_timer() returns without inserting the timer (e.g. while the simulation is stopped): the timer is marked pending (m_expired false) but is not queued, its wait never completes, and run() reports quiescence with the wait outstanding - an event armed between stop() and restart() is lost',
+              'the timer is inserted on every path')
     pb = [c for c in at.calls() if (c.get('callee') or '').split('::')[-1] in ('push_back', 'emplace_back', 'push_front') and q.render(at, c.get('obj')) == 'm_timer_queue']
     run.check(not pb, 'R4', 'sorted-insert-only', S + '::add_timer', at.loc(), 'the timer queue is appended to without sorting', 'only the sorted insert mutates the queue')
 
